@@ -203,10 +203,24 @@ def eff_required(el):
 
 
 # ---- call-by-contract made concrete
+def _is_instance_element(e):
+    from statham.schema.elements import Element
+    return isinstance(e, Element) and not isinstance(e, type)
+
+
 def sem(e, v):
+    """Executable twin of the denotation.  For element *instances* and a passed value it follows SEM-DEF -- every validator of
+    the element accepts and construct succeeds -- evaluated through e.validators / validator calls / e.construct and *not*
+    through Element.__call__, so that a contract about Element.__call__ is checked against something other than itself."""
     from statham.schema.exceptions import ValidationError
+    from statham.schema.constants import NotPassed
     with warnings.catch_warnings():
         warnings.simplefilter("ignore")
+        if _is_instance_element(e) and not isinstance(v, NotPassed):
+            try:
+                return accepts_all(list(e.validators), v) and csem(e, v)
+            except (ValidationError, TypeError):
+                return False
         try:
             e(v)
         except (ValidationError, TypeError):
@@ -215,8 +229,11 @@ def sem(e, v):
 
 
 def build(e, v):
+    from statham.schema.constants import NotPassed
     with warnings.catch_warnings():
         warnings.simplefilter("ignore")
+        if _is_instance_element(e) and not isinstance(v, NotPassed):
+            return cbuild(e, v)
         return e(v)
 
 
